@@ -132,7 +132,7 @@ var c10Scripts = []c10Script{
 type c10Params struct {
 	script  int
 	api     string // Close | DeletePeer
-	trigger int    // step index; -1 = first quiescent point, -2 = never (baseline run)
+	trigger int    // step index; -1 = first quiescent point, -2 = never (baseline run); <= -1000: at -(1000+ms) of virtual time
 }
 
 type c10Obs struct {
@@ -244,6 +244,9 @@ func c10Run(p c10Params, ch vrt.Chooser, trace bool) (*world.World, *vrt.Exec, *
 			o.stepsAtEnd = vrt.Cur().Steps()
 		case p.trigger == -1:
 			vrt.WaitQuiescent()
+		case p.trigger <= -1000:
+			// time trigger: -(1000 + milliseconds of virtual time)
+			vrt.Sleep(time.Duration(-p.trigger-1000) * time.Millisecond)
 		default:
 			if !vrt.WaitStep(p.trigger) {
 				// the default execution ended before this step: nothing to trigger
@@ -451,6 +454,26 @@ func c10Scenarios(th bool) []*Scn {
 			}
 		}
 	}
+	// slow plugin callbacks: the API call lands while an FSM goroutine sits inside a callback that
+	// takes 300 ms (100 ms in, at the very instant it returns, 1 ms later)
+	for _, name := range []string{"out-established", "in-established", "collision", "out-openconfirm", "two-peers"} {
+		si := -1
+		for i, sc := range c10Scripts {
+			if sc.name == name {
+				si = i
+			}
+		}
+		for _, api := range []string{"Close", "DeletePeer"} {
+			for _, kind := range []string{"GetCapabilities", "OnOpenMessage", "OnEstablished"} {
+				if kind != "GetCapabilities" && name == "out-openconfirm" && kind == "OnEstablished" {
+					continue
+				}
+				for _, ms := range []int{100, 300, 301} {
+					out = append(out, slowTwin(c10Scn(c10Params{si, api, -1000 - ms}, 1), kind, 1, 300*time.Millisecond))
+				}
+			}
+		}
+	}
 	return out
 }
 
@@ -473,7 +496,7 @@ func c10Check(c *harness.Ctx) {
 func init() {
 	harness.Register(&harness.Check{
 		Property: "C10", Level: "model_checking", NeedsConc: true, QuickS: 200, ThoroughS: 1500,
-		Rule:   "stateless model checking of the real (rewritten) corebgp: 16 connection scripts (refused / stalled / late dial, OpenSent, OpenConfirm, Established in both directions, collision, damping, active WriteUpdate callers, two peers, a burst of inbound connections, reconnect with writers, a peer that stopped reading on a bounded-window network) x {Close, DeletePeer, Close with a concurrent AddPeer, Close with an inbound connection arriving} issued at EVERY step index of the default execution and at the first quiescent point, each explored over all schedules within the delay bound (quick 1, thorough 2; quiescent trigger +1) with happens-before caching; vector-clock race detection on every instrumented field/array/map access in every execution; distinct_nontrivial = distinct observable outcomes",
+		Rule:   "stateless model checking of the real (rewritten) corebgp: 16 connection scripts (refused / stalled / late dial, OpenSent, OpenConfirm, Established in both directions, collision, damping, active WriteUpdate callers, two peers, a burst of inbound connections, reconnect with writers, a peer that stopped reading on a bounded-window network) x {Close, DeletePeer, Close with a concurrent AddPeer, Close with an inbound connection arriving} issued at EVERY step index of the default execution and at the first quiescent point, and - with one plugin callback taking 300 ms - inside, at the end of and just after that callback, each explored over all schedules within the delay bound (quick 1, thorough 2; quiescent trigger +1) with happens-before caching; vector-clock race detection on every instrumented field/array/map access in every execution; distinct_nontrivial = distinct observable outcomes",
 		Assume: []string{"delay-bounded schedules", "virtual network (A3)", "race detector covers instrumented struct-field/array/map accesses of the package (A5)", "goroutine leak rule: after the call returned the library goroutines are run to quiescence without clock advance; a goroutine that still exists then is blocked forever"},
 		Run:    c10Check,
 		Replay: scnReplay("C10", func(name string) *Scn {
